@@ -29,13 +29,22 @@ def transitive_producers(g, e, disc):
     return seen
 
 
-def classify_died(g, d):
-    """call site + shape of known finding D18 (a statement judged dirty before its dyndep file, which adds restat, was
-    loaded, and clean afterwards)"""
-    if ("RefreshDyndepDependents" in d.stderr and "!edge->outputs_ready()" in d.stderr
+def classify_died(g, d, model=None, files=None, targets=None):
+    """known finding D18 (a statement judged dirty before its dyndep file, which adds restat, was loaded, and clean
+    afterwards): the abort is at D18's call site AND - when the model's records are known - the counterfactual model says
+    that such a statement exists in this very invocation. Without model knowledge (after a crash, foreign runners) only
+    the coarser shape test is possible: the graph has a dyndep-added restat."""
+    if not ("RefreshDyndepDependents" in d.stderr and "!edge->outputs_ready()" in d.stderr
             and any(e.get('dd') and e.get('dd_restat') for e in g['edges'])):
-        return 'D18_dirty_before_dyndep_restat_clean_after'
-    return None
+        return None
+    if model is not None and files is not None and targets is not None:
+        try:
+            p = model.plan(g, files, targets, cf_dyndep_restat_late=True)
+        except Exception:
+            return None
+        if not p.get('late'):
+            return None
+    return 'D18_dirty_before_dyndep_restat_clean_after'
 
 
 class Sim:
@@ -325,7 +334,8 @@ class Sim:
         try:
             res = self.execute(req)
         except ProbeDied as d:
-            self.add('C13', 'crash', 'SIM child died: ' + d.describe(), known=classify_died(g, d))
+            self.add('C13', 'crash', 'SIM child died: ' + d.describe(),
+                     known=classify_died(g, d, *((self.model, self.files, targets) if self.synced else ())))
             self.stop = True
             return None
         self.last = dict(req=req, res=res, pred=pred)
@@ -1025,6 +1035,12 @@ def run_late_targets(sim, ops):
                 if srcs_:
                     sim.write(srcs_[0], sim.new_content(srcs_[0], 8 + 2 * n + pass_))
                     touched = True
+            if pass_ == 1 and (n % 2 == 0) and not e['generator']:
+                # ... and every other time the bound statement itself has a reason to run that only the log knows (its
+                # command line changed), while none of its inputs is dirty
+                e['variant'] = 'v%d' % (5 + n)
+                touched = True
+                sim.labels.add('late_bound_statement_command_changed')
             if pass_ == 1 and not touched:
                 continue
             if late:
